@@ -396,8 +396,15 @@ def random_spec(rng, **o):
         if feat == 'sparse_rows':
             k = int(rng.integers(2, ns))
             rows = np.sort(rng.permutation(ns)[:k]).astype(np.int64)
+            mode = g('feat_rows_mode', 'subset')
+            if mode == 'complete_by_template':
+                rows = np.argsort(st, kind='stable').astype(np.int64)       # every spike listed, grouped by template
+            elif mode == 'subset_unsorted':
+                rows = rows[rng.permutation(len(rows))]
         nrows = ns if rows is None else len(rows)
         s.pc_features = rng.normal(0, 1, size=(nrows, npcs, nloc)).astype(g('dtype_feat', 'float32'))
+        if g('feat_nan_rows', 0):
+            s.pc_features[rng.permutation(nrows)[:g('feat_nan_rows', 0)]] = np.nan      # stored, but undefined values
         if feat != 'dense':
             ind = np.stack([rng.permutation(nc)[:nloc] for _ in range(nt)]).astype(np.int64)
             s.pc_feature_ind = ind.astype(g('dtype_ind', 'int32'))
